@@ -22,7 +22,7 @@ import (
 	"verifharness/vlib"
 )
 
-var nVal, nApp, nMut int
+var nVal, nApp, nMut, nDrv int
 
 func main() {
 	vlib.Main(&vlib.Check{
@@ -39,7 +39,8 @@ func main() {
 			nVal = env.Scale(1000, 12000)
 			nApp = env.Scale(400, 6000)
 			nMut = env.Scale(2400, 40000)
-			return nVal + nApp + nMut, nil
+			nDrv = env.Scale(300, 5000)
+			return nVal + nApp + nMut + nDrv, nil
 		},
 		RunCase: func(env *vlib.Env, idx int, rep *vlib.Reporter) {
 			switch {
@@ -47,8 +48,10 @@ func main() {
 				valueCase(env, idx, rep)
 			case idx < nVal+nApp:
 				appCase(env, idx-nVal, rep)
-			default:
+			case idx < nVal+nApp+nMut:
 				mutCase(env, idx-nVal-nApp, rep)
+			default:
+				driverCase(env, idx-nVal-nApp-nMut, rep)
 			}
 		},
 		Finalize: func(env *vlib.Env, agg *vlib.Aggregate) {
@@ -56,6 +59,8 @@ func main() {
 			agg.Require("app_events_decoded", 1000)
 			agg.Require("mutants_repo_rejects", 1000)
 			agg.Require("mutants_repo_accepts", 100)
+			agg.Require("driver_blocks", 500)
+			agg.Require("driver_valid_events_applied", 100)
 			for _, t := range []string{"check-in", "batch-config", "batch-config-started", "eon-started", "poly-commitment-registered", "poly-eval-registered", "accusation-registered", "apology-registered"} {
 				agg.Require("app_event_shutter."+t, 1)
 			}
